@@ -68,6 +68,15 @@ def install(it, heap=None):
         sp, other = a; n1 = mem.load(Ptr(sp.obj, sp.off + 8), 8); n2 = mem.load(Ptr(other.obj, other.off + 8), 8)
         return cmp_bytes(mem.load(sp, 8), n1, mem.load(other, 8), n2)
     h[KS + '7compareEmmPKcm'] = compare_pos_n_s_n; h[KS + '7compareERKS4_'] = compare_str
+    def guard_acquire(it_, a):       # function-local static initialisation: the ABI serialises it; its writes are not a race
+        from engine import irsym as _ir
+        g = mem.load(a[0], 1)
+        if is_c(g) and g: return 0
+        it_._guard_track = _ir.TRACK_GLOBALS[0]; _ir.TRACK_GLOBALS[0] = False; return 1
+    def guard_release(it_, a):
+        from engine import irsym as _ir
+        mem.store(a[0], 1, 1); _ir.TRACK_GLOBALS[0] = getattr(it_, '_guard_track', True); return None
+    h['__cxa_guard_acquire'] = guard_acquire; h['__cxa_guard_release'] = guard_release; h['__cxa_guard_abort'] = guard_release
     h['_ZSt9terminatev'] = lambda it_, a: (_ for _ in ()).throw(Exception('std::terminate reached'))
     h['__cxa_pure_virtual'] = lambda it_, a: (_ for _ in ()).throw(Exception('pure virtual call'))
 
